@@ -11,18 +11,19 @@
   * `toRes b`         = `.ok ()` if `b` else `.error .notMatched`.
   * every operator theorem says: lungo's operator = the §8.3 predicate over `Spec.leafs`/`Spec.cand`.
 
-  KNOWN DEVIATIONS of lungo from §8.3 INSIDE the core domain as DESIGN §8.2 words it (all observed
-  on the real code by stream `specmatch`; witnesses in its corpus): D1 `$type` null matches an
-  absent field, D2 `$exists` over a fan-out whose candidates are all empty arrays, D3 `$size`
-  below two fan-outs, D4 `$elemMatch` field form on non-document elements, D5 `$all` over a
-  fan-out with array-valued candidates, D6 `$exists` with a Decimal128 argument, D7 `$all` with an
-  array member next to other members. Therefore the full statement
+  KNOWN DEVIATIONS of lungo from §8.3 INSIDE the core domain (observed on the real code by stream
+  `specmatch`, witnesses in its corpus, recorded as known findings): D3 `$size` below two
+  fan-outs, D5 `$all` over a fan-out with array-valued candidates. Therefore the full statement
 
       -- theorem match_agrees_core : core d q = true → Match sch d q = Spec.matches sch d q
 
   is FALSE for the current code, and what is proved is `match_agrees_core_partial` on
-  `coreProved` = `core` minus exactly D1–D7 (`Spec.coreC` with `ex = true`); the operator
+  `coreProved` = `core` minus exactly D3 and D5 (`Spec.coreC` with `ex = true`); the two operator
   theorems concerned are named `_partial` and carry the excluding hypothesis explicitly.
+  (History: D1 `$type` null on absent fields, D2 `$exists` over fan-outs reaching only empty arrays
+  and D4 `$elemMatch` field form on non-document elements were deviations found here and have been
+  fixed in the code; D6 Decimal128 `$exists` arguments and D7 `$all` with array members are domain
+  restrictions of §8.2(4), excluded from `core` itself.)
 -/
 import Lungo.Proofs.SpecAgreeRec
 import Lungo.Proofs.MatchTotal
@@ -88,50 +89,33 @@ theorem nin_agrees (sch : SchemaEval) (d : Doc) (path : String) (vs : List V) (h
     mOp sch d "$nin" path (.arr vs) = toRes (holdsC (.doc d) (splitPath path) (.nin vs)) := by
   rw [nin_is_not_in, in_agrees sch d path vs hd hv, negate_toRes, holdsC, holdsC]
 
-/-
-  theorem exists_agrees : PathDom d path →
-      mOp sch d "$exists" path arg = toRes (holdsC (.doc d) (splitPath path) (.exists_ arg))
-  is FALSE at D2 ({a: [{b: []}]} vs {"a.b": {$exists: true}}) and D6 ({a: 1} vs {a: {$exists: Decimal128 0}}).
--/
-/-- `$exists arg`: `arg` truthy ⇔ there is a candidate. Missing for the full statement: Decimal128
-    arguments (D6) and fan-outs that reach only empty arrays (D2). -/
-theorem exists_agrees_partial (sch : SchemaEval) (d : Doc) (path : String) (arg : V) (hd : PathDom d path)
-    (hdec : isDec arg = false)
-    (hfan : fans (.doc d) (splitPath path) = true →
-      (cand (.doc d) (splitPath path)).all (fun c => !isEmptyArr c.1) = true) :
+/-- `$exists arg`: `arg` truthy ⇔ there is a candidate (non-decimal `arg`: §8.2(4)) -/
+theorem exists_agrees (sch : SchemaEval) (d : Doc) (path : String) (arg : V) (hd : PathDom d path)
+    (hdec : isDec arg = false) :
     mOp sch d "$exists" path arg = toRes (holdsC (.doc d) (splitPath path) (.exists_ arg)) := by
-  rw [mOp_leaf sch d "$exists" path arg _ rfl, holdsC]; exact matchExists_agrees hd arg hdec hfan
+  rw [mOp_leaf sch d "$exists" path arg _ rfl, holdsC]; exact matchExists_agrees hd arg hdec
 
-/-
-  theorem type_agrees : PathDom d path → parseType v = some (.type number ts) →
-      (fans … = true → scalarTypes ts = true) →
-      mOp sch d "$type" path v = toRes (holdsC (.doc d) (splitPath path) (.type number ts))
-  is FALSE at D1 (`type_null_matches_missing`). The only place the hypothesis `h10` is used is
-  `typePred_typeHolds` (Proofs/SpecAgree.lean): once matchType skips Missing, the model's test IS
-  `typeHolds` and `h10` disappears from this theorem and from `coreC`.
--/
-/-- `$type ts`: some PRESENT leaf has one of the types. Missing for the full statement: type lists
-    naming null (D1). -/
-theorem type_agrees_partial (sch : SchemaEval) (d : Doc) (path : String) (v : V) (number : Bool) (ts : List Nat)
+/-- `$type ts`: some PRESENT leaf has one of the types (`missing` has no type); on a fan-out path
+    the types are neither null nor array (§8.2(2)) -/
+theorem type_agrees (sch : SchemaEval) (d : Doc) (path : String) (v : V) (number : Bool) (ts : List Nat)
     (hd : PathDom d path) (hp : parseType v = some (.type number ts))
-    (h10 : ts.contains 0x0A = false)
     (hfan : fans (.doc d) (splitPath path) = true → scalarTypes ts = true) :
     mOp sch d "$type" path v = toRes (holdsC (.doc d) (splitPath path) (.type number ts)) := by
-  rw [mOp_leaf sch d "$type" path v _ rfl, holdsC]; exact matchType_agrees hd v number ts hp h10 hfan
+  rw [mOp_leaf sch d "$type" path v _ rfl, holdsC]; exact matchType_agrees hd v number ts hp hfan
 
-/-- THE DEVIATION D1, for every document and path that reaches nothing without fanning out:
-    lungo's `{path: {$type: "null"}}` matches, the reference semantics does not. -/
-theorem type_null_matches_missing (sch : SchemaEval) (d : Doc) (path : String) (hd : PathDom d path)
+/-- `{path: {$type: "null"}}` does not match a document in which the path reaches nothing
+    (the former deviation D1, now excluded by the code): both sides say "no". -/
+theorem type_null_skips_missing (sch : SchemaEval) (d : Doc) (path : String) (hd : PathDom d path)
     (hf : fans (.doc d) (splitPath path) = false) (hc : cand (.doc d) (splitPath path) = []) :
-    mOp sch d "$type" path (.str "null") = .ok () ∧
+    mOp sch d "$type" path (.str "null") = .error .notMatched ∧
     holdsC (.doc d) (splitPath path) (.type false [0x0A]) = false := by
   have hp : parseType (.str "null") = some (.type false [0x0A]) := by
     simp [parseType, resolveTypes, resolveType, alias2Type]
-  constructor
-  · rw [mOp_leaf sch d "$type" path _ _ rfl, matchType_unfold d path _ _ _ hp,
-      leaf_noFan d path _ hd.nna hd.segs hf]
-    simp [leafs, leafsAt, hc, typePred, V.typ, toRes]
-  · simp [holdsC, leafsAt, hc, typeHolds, V.isMissing]
+  have h2 : holdsC (.doc d) (splitPath path) (.type false [0x0A]) = false := by
+    simp [holdsC, leafsAt, hc, typeHolds, V.isMissing]
+  refine ⟨?_, h2⟩
+  rw [type_agrees sch d path _ false [0x0A] hd hp (by simp [hf]), h2]
+  rfl
 
 /-
   theorem size_agrees : … is FALSE at D3 ({a: [{b: [{c: 1}, {c: 2}]}]} vs {"a.b.c": {$size: 2}}).
@@ -144,11 +128,10 @@ theorem size_agrees_partial (sch : SchemaEval) (d : Doc) (path : String) (v : V)
   rw [mOp_leaf sch d "$size" path v _ rfl, holdsC]; exact matchSize_agrees hd v n hp h2
 
 /-
-  theorem all_agrees : … is FALSE at D5 ({a: [{b: [1]}, {b: 2}]} vs {"a.b": {$all: [1, 2]}}) and
-  D7 ({a: [1, 2]} vs {a: {$all: [[1, 2], 1]}}).
+  theorem all_agrees : … is FALSE at D5 ({a: [{b: [1]}, {b: 2}]} vs {"a.b": {$all: [1, 2]}}).
 -/
-/-- `$all vs`: `vs ≠ []` and every member equals some leaf. Missing for the full statement: array
-    members on paths that do not fan out (D7); array-valued candidates on paths that do (D5). -/
+/-- `$all vs`: `vs ≠ []` and every member equals some leaf (members are not arrays: §8.2(4)).
+    Missing for the full statement: array-valued candidates on paths that fan out (D5). -/
 theorem all_agrees_partial (sch : SchemaEval) (d : Doc) (path : String) (vs : List V) (hd : PathDom d path)
     (hnf : fans (.doc d) (splitPath path) = false → vs.all (fun v => !v.isArr) = true)
     (hfan : fans (.doc d) (splitPath path) = true →
@@ -184,13 +167,10 @@ theorem not_agrees (sch : SchemaEval) (d : Doc) (path : String) (q : List (Strin
     mOp sch d "$not" path (.doc q) = toRes (holdsC (.doc d) (splitPath path) (.not cs)) := by
   rw [not_is_negation sch d path q hq, (conds_agree sch q d path cs hp hd hc).2, negate_toRes, holdsC]
 
-/-
-  theorem elemMatch_agrees : … (field form) is FALSE at D4 ({a: [1]} vs {a: {$elemMatch: {b: null}}}).
--/
-/-- `$elemMatch q`: some candidate is an array with an element satisfying `q`. Operator form and
-    field form; no fan-out (§8.2(2)); missing for the full statement: field form on elements that
-    are not documents (D4, part of `coreC true`). -/
-theorem elemMatch_agrees_partial (sch : SchemaEval) (d : Doc) (path : String) (q : List (String × V)) (c : Cond)
+/-- `$elemMatch q`: some candidate is an array with an element satisfying `q` — operator form: as
+    conditions on the element; field form: as a filter on the element, which must be a document.
+    No fan-out (§8.2(2)); the conditions inside `q` on their own (proved) domain. -/
+theorem elemMatch_agrees (sch : SchemaEval) (d : Doc) (path : String) (q : List (String × V)) (c : Cond)
     (hp : parseCond "$elemMatch" (.doc q) = some c) (hd : PathDom d path)
     (hc : coreC true (.doc d) (splitPath path) (fans (.doc d) (splitPath path)) c = true) :
     mOp sch d "$elemMatch" path (.doc q) = toRes (holdsC (.doc d) (splitPath path) c) :=
@@ -279,7 +259,7 @@ example (path : String) (h : splitPath path = ["a", "1", "b"]) :
     fans (.doc [("a", .arr [.i32 1, .doc [("b", .null)]])]) (splitPath path) = false := by
   refine ⟨⟨by decide, by rw [h]; decide⟩, by rw [h]; decide⟩
 
-/-- an instance of the deviation D1: {b: 1} has no field "a" -/
+/-- an instance of the hypotheses of `type_null_skips_missing`: {b: 1} has no field "a" -/
 example (path : String) (h : splitPath path = ["a"]) :
     PathDom [("b", .i32 1)] path ∧ fans (.doc [("b", .i32 1)]) (splitPath path) = false ∧
     cand (.doc [("b", .i32 1)]) (splitPath path) = [] := by
@@ -292,10 +272,23 @@ example (path : String) (h : splitPath path = ["a"]) :
 #guard coreProved [("a", .arr [.doc [("b", .i32 1)]])] [("$nor", .arr [.doc [("a", .doc [("$elemMatch", .doc [("b", .doc [("$lt", .i32 1)])])])]])]
 #guard (Match schemaUnmodelled [("a", .arr [.doc [("b", .i32 1)]])] [("$nor", .arr [.doc [("a", .doc [("$elemMatch", .doc [("b", .doc [("$lt", .i32 1)])])])]])]) matches .ok true
 #guard (Spec.matches schemaUnmodelled [("a", .arr [.doc [("b", .i32 1)]])] [("$nor", .arr [.doc [("a", .doc [("$elemMatch", .doc [("b", .doc [("$lt", .i32 1)])])])]])]) matches .ok true
--- the deviation D1 on a concrete pair: inside `core`, outside `coreProved`, the two sides differ
-#guard core [("b", .i32 1)] [("a", .doc [("$type", .str "null")])]
-#guard !coreProved [("b", .i32 1)] [("a", .doc [("$type", .str "null")])]
-#guard (Match schemaUnmodelled [("b", .i32 1)] [("a", .doc [("$type", .str "null")])]) matches .ok true
+-- the former deviations D1, D2, D4 on their witnesses: now inside the proved domain, both sides agree
+#guard coreProved [("b", .i32 1)] [("a", .doc [("$type", .str "null")])]
+#guard (Match schemaUnmodelled [("b", .i32 1)] [("a", .doc [("$type", .str "null")])]) matches .ok false
 #guard (Spec.matches schemaUnmodelled [("b", .i32 1)] [("a", .doc [("$type", .str "null")])]) matches .ok false
+#guard coreProved [("a", .arr [.doc [("b", .arr [])]])] [("a.b", .doc [("$exists", .bool true)])]
+#guard (Match schemaUnmodelled [("a", .arr [.doc [("b", .arr [])]])] [("a.b", .doc [("$exists", .bool true)])]) matches .ok true
+#guard (Spec.matches schemaUnmodelled [("a", .arr [.doc [("b", .arr [])]])] [("a.b", .doc [("$exists", .bool true)])]) matches .ok true
+#guard coreProved [("a", .arr [.i32 1])] [("a", .doc [("$elemMatch", .doc [("b", .null)])])]
+#guard (Match schemaUnmodelled [("a", .arr [.i32 1])] [("a", .doc [("$elemMatch", .doc [("b", .null)])])]) matches .ok false
+#guard (Spec.matches schemaUnmodelled [("a", .arr [.i32 1])] [("a", .doc [("$elemMatch", .doc [("b", .null)])])]) matches .ok false
+-- the remaining deviation D3 on a concrete pair: inside `core`, outside `coreProved`, the two sides differ
+#guard core [("a", .arr [.doc [("b", .arr [.doc [("c", .i32 1)], .doc [("c", .i32 2)]])]])] [("a.b.c", .doc [("$size", .i32 2)])]
+#guard !coreProved [("a", .arr [.doc [("b", .arr [.doc [("c", .i32 1)], .doc [("c", .i32 2)]])]])] [("a.b.c", .doc [("$size", .i32 2)])]
+#guard (Match schemaUnmodelled [("a", .arr [.doc [("b", .arr [.doc [("c", .i32 1)], .doc [("c", .i32 2)]])]])] [("a.b.c", .doc [("$size", .i32 2)])]) matches .ok true
+#guard (Spec.matches schemaUnmodelled [("a", .arr [.doc [("b", .arr [.doc [("c", .i32 1)], .doc [("c", .i32 2)]])]])] [("a.b.c", .doc [("$size", .i32 2)])]) matches .ok false
+-- D6 and D7 are outside `core`
+#guard !core [("a", .i32 1)] [("a", .doc [("$exists", .dec 0x3040000000000000 0)])]
+#guard !core [("a", .arr [.i32 1, .i32 2])] [("a", .doc [("$all", .arr [.arr [.i32 1, .i32 2], .i32 1])])]
 
 end Lungo.C10
